@@ -125,15 +125,18 @@ namespace details {
             };
         }
 
-        static constexpr attribute_access_arguments check_write( void* server )
+        static attribute_access_arguments check_write(
+            const client_characteristic_configuration& cc,
+            const connection_security_attributes& cs,
+            void* server )
         {
             return attribute_access_arguments{
                 attribute_access_type::write,
                 0,
                 0,
                 0,
-                client_characteristic_configuration(),
-                connection_security_attributes(),
+                cc,
+                cs,
                 server
             };
         }
